@@ -31,9 +31,13 @@ SHAPES = {
     "inner_diamond": {1: [0], 2: [1], 3: [1, 2]},
     "chain3_shortcut": {1: [0], 2: [1], 3: [0, 2]},
     "two_branches": {1: [0], 2: [0], 3: [1], 4: [2]},
+    # the root lists a file that another of its imports has loaded already, and further files after it
+    "diamond_plus": {1: [0], 2: [0, 1], 3: [0]},
+    "diamond_plus2": {1: [0], 2: [0, 1], 3: [0], 4: [0, 3]},
 }
 SHAPE_WEIGHTS = ["chain2", "chain2", "chain3", "chain3", "diamond", "diamond", "diamond", "fan", "deep_diamond",
-                 "inner_diamond", "chain3_shortcut", "two_branches", "random", "random", "random"]
+                 "inner_diamond", "chain3_shortcut", "two_branches", "diamond_plus", "diamond_plus", "diamond_plus", "diamond_plus2",
+                 "random", "random", "random"]
 
 
 def _random_shape(rng):
@@ -240,6 +244,8 @@ def _gen_valid_deep(rng, threads, shape, same_text):
     for pf in range(0, n + 1):
         kids = [j for j in range(1, n + 1) if pf in parents[j]]
         rng.shuffle(kids)
+        if name.startswith("diamond_plus") and rng.random() < 0.6:
+            kids.sort()     # the importer of a file first, then the file itself (already loaded by then), then the rest
         owner(case, pf)["entries"].extend({"fid": j, "conns": [], "force": None} for j in kids)
     # references into (directly and transitively) imported files: deepest importers first
     for pf in range(n, -1, -1):
